@@ -128,10 +128,11 @@ func collect(st subscription.Store, o subscription.IterationOptions) []string {
 // ---- alphabet
 
 type subOp struct {
-	kind   int // 0 subscribe, 1 unsubscribe, 2 unsubscribeAll
+	kind   int // 0 subscribe, 1 unsubscribe, 2 unsubscribeAll, 3 unsubscribe of several filters in one call
 	client string
 	full   string
 	opt    int
+	fulls  []string
 }
 
 func (o subOp) String() string {
@@ -140,6 +141,8 @@ func (o subOp) String() string {
 		return fmt.Sprintf("Subscribe(%s,%s,opt%d)", o.client, o.full, o.opt)
 	case 1:
 		return fmt.Sprintf("Unsubscribe(%s,%s)", o.client, o.full)
+	case 3:
+		return fmt.Sprintf("Unsubscribe(%s,%s)", o.client, strings.Join(o.fulls, ","))
 	}
 	return fmt.Sprintf("UnsubscribeAll(%s)", o.client)
 }
@@ -149,17 +152,29 @@ func subAlphabet(clients, filters []string, opts []int) []subOp {
 	for _, c := range clients {
 		for _, f := range filters {
 			for _, o := range opts {
-				ops = append(ops, subOp{0, c, f, o})
+				ops = append(ops, subOp{kind: 0, client: c, full: f, opt: o})
 			}
 		}
 	}
 	for _, c := range clients {
 		for _, f := range filters {
-			ops = append(ops, subOp{1, c, f, 0})
+			ops = append(ops, subOp{kind: 1, client: c, full: f})
 		}
 	}
 	for _, c := range clients {
-		ops = append(ops, subOp{2, c, "", 0})
+		ops = append(ops, subOp{kind: 2, client: c})
+	}
+	// one Unsubscribe call naming two filters, in both orders (pair and shared alphabets)
+	if len(filters) == 2 || strings.HasPrefix(filters[len(filters)-1], "$share/") {
+		for _, c := range clients {
+			for i, f := range filters {
+				for j, g := range filters {
+					if i != j {
+						ops = append(ops, subOp{kind: 3, client: c, fulls: []string{f, g}})
+					}
+				}
+			}
+		}
 	}
 	return ops
 }
@@ -435,6 +450,14 @@ func applySubOp(c *explore.Ctx, st subscription.Store, ref *refTable, op subOp, 
 		if check && err != nil {
 			c.Violate("unsubscribe-result", "error", map[string]any{"store": flavour, "history": hist()}, "nil", err.Error())
 		}
+	case 3:
+		err := st.Unsubscribe(op.client, op.fulls...)
+		for _, f := range op.fulls {
+			delete(ref.m, ref.key(op.client, f))
+		}
+		if check && err != nil {
+			c.Violate("unsubscribe-result", "error", map[string]any{"store": flavour, "history": hist()}, "nil", err.Error())
+		}
 	case 2:
 		err := st.UnsubscribeAll(op.client)
 		for k, r := range ref.m {
@@ -479,7 +502,7 @@ func subBFS(c *explore.Ctx, clients, filters []string, opts []int, topics []stri
 
 func runC02(c *explore.Ctx) {
 	c.Level = "model_checking"
-	c.Rule = "E1: explicit-state BFS to closure over Subscribe/Unsubscribe/UnsubscribeAll alphabets on the real mem subscription store (states = canonical dumps of the store's private state; every new state gets the full query battery vs an independent MQTT 4.7 matcher). One BFS per alphabet: all pairs (and, thorough, all triples) of filters from the universe x 2 clients. E5: TopicMatch on every (valid topic, valid filter) pair of bounded strings."
+	c.Rule = "E1: explicit-state BFS to closure over Subscribe/Unsubscribe (one filter, and two filters in one call in both orders)/UnsubscribeAll alphabets on the real mem subscription store (states = canonical dumps of the store's private state; every new state gets the full query battery vs an independent MQTT 4.7 matcher). One BFS per alphabet: all pairs (and, thorough, all triples) of filters from the universe x 2 clients. E5: TopicMatch on every (valid topic, valid filter) pair of bounded strings."
 	c.Trusted = []string{"refmqtt.Match / ValidTopicFilter / ValidTopicName (independent reference written from MQTT 4.7)", "statekey.Dump (reflection dump of private state)"}
 	c.Assumptions = []string{"shared subscriptions in lookups are decided by C11; C02 only requires that they do not disturb non-shared answers and counts"}
 	filters, topics := c02Universe(!c.Quick())
